@@ -87,6 +87,18 @@ type Obs struct {
 
 	barrierWant    int
 	barrierArrived atomic.Int32
+
+	events    []slotEvt
+	skipClaim [][2]int // (dependent, dependency): handed an error for a dependency that had not been evaluated
+}
+
+// slotEvt is one change of the set of executing targets. The executing count is computed from
+// the log once the run is over (account), because whether a loaded target's interval ends with
+// LoadTarget or with Evaluate is only known then: a runner may decide not to evaluate a target it
+// has loaded.
+type slotEvt struct {
+	kind string // loadStart loadFail loadEnd evalEnd etEnter etExit runReturn
+	idx  int
 }
 
 func (o *Obs) barrier() {
@@ -108,13 +120,44 @@ func (o *Obs) inc(where string) {
 	}
 }
 
+// account computes Active, MaxActive, OverLimitAt and ActiveAtRunReturn from the event log. A
+// target is executing from the start of its LoadTarget to the end of its Evaluate, minus the time
+// it spends inside EvaluateTargets; a target that is loaded but never evaluated is executing only
+// while it is being loaded.
+func (o *Obs) account() {
+	o.Active, o.MaxActive, o.OverLimitAt, o.ActiveAtRunReturn = 0, 0, "", 0
+	for _, e := range o.events {
+		switch e.kind {
+		case "loadStart":
+			o.inc("LoadTarget(" + label(e.idx) + ")")
+		case "loadFail", "evalEnd", "etEnter":
+			o.Active--
+		case "loadEnd":
+			if o.Evals[e.idx] == 0 {
+				o.Active--
+			}
+		case "etExit":
+			o.inc("after EvaluateTargets in " + label(e.idx))
+		case "runReturn":
+			o.ActiveAtRunReturn = o.Active
+		}
+	}
+	for _, sc := range o.skipClaim {
+		if o.Evals[sc[1]] > 0 && o.UnfinishedAtRet == "" {
+			o.UnfinishedAtRet = fmt.Sprintf("%s continued past its dependency request with an error for %s, which had not been evaluated yet and was evaluated afterwards", label(sc[0]), label(sc[1]))
+		}
+	}
+}
+
+func (o *Obs) evt(kind string, idx int) { o.events = append(o.events, slotEvt{kind, idx}) }
+
 func (o *Obs) LoadTarget(lbl string) (runner.Target, error) {
 	var idx int
 	fmt.Sscanf(lbl, "n%d", &idx)
 	o.mu.Lock()
 	o.Loads[idx]++
 	o.Started[idx] = true
-	o.inc("LoadTarget(" + lbl + ")")
+	o.evt("loadStart", idx)
 	o.mu.Unlock()
 	verifhook.Yield("harness.load")
 	if idx >= len(o.c.Nodes) || o.c.Nodes[idx].Unknown {
@@ -122,13 +165,14 @@ func (o *Obs) LoadTarget(lbl string) (runner.Target, error) {
 		o.mu.Lock()
 		o.Outcome[idx] = err
 		o.Finished[idx] = true
-		o.Active--
+		o.evt("loadFail", idx)
 		o.mu.Unlock()
 		return nil, err
 	}
 	t := &tgt{o: o, idx: idx}
 	o.mu.Lock()
 	o.Objects[idx] = t
+	o.evt("loadEnd", idx)
 	o.mu.Unlock()
 	return t, nil
 }
@@ -142,7 +186,7 @@ func (t *tgt) Evaluate(engine runner.Engine) (err error) {
 		o.mu.Lock()
 		o.Outcome[t.idx] = err
 		o.Finished[t.idx] = true
-		o.Active--
+		o.evt("evalEnd", t.idx)
 		o.mu.Unlock()
 	}()
 	depFailed := false
@@ -164,7 +208,7 @@ func (t *tgt) Evaluate(engine runner.Engine) (err error) {
 			}
 			o.requested[d]++
 		}
-		o.Active--
+		o.evt("etEnter", t.idx)
 		o.inET++
 		if o.inET > o.MaxConcurrentET {
 			o.MaxConcurrentET = o.inET
@@ -175,7 +219,7 @@ func (t *tgt) Evaluate(engine runner.Engine) (err error) {
 
 		o.mu.Lock()
 		o.inET--
-		o.inc("after EvaluateTargets in " + label(t.idx))
+		o.evt("etExit", t.idx)
 		if len(results) != len(req) && o.ResultMismatch == "" {
 			o.ResultMismatch = fmt.Sprintf("%s: %d results for %d labels", label(t.idx), len(results), len(req))
 		}
@@ -190,8 +234,14 @@ func (t *tgt) Evaluate(engine runner.Engine) (err error) {
 				depFailed = true
 				continue
 			}
-			if !o.Finished[d] && o.UnfinishedAtRet == "" {
-				o.UnfinishedAtRet = fmt.Sprintf("%s continued past its dependency request while %s had not finished", label(t.idx), label(d))
+			if !o.Finished[d] {
+				if o.Evals[d] == 0 && r.Error != nil {
+					// The runner finished the dependency without evaluating it (its outcome is the
+					// runner's own error). account checks that it is not evaluated later after all.
+					o.skipClaim = append(o.skipClaim, [2]int{t.idx, d})
+				} else if o.UnfinishedAtRet == "" {
+					o.UnfinishedAtRet = fmt.Sprintf("%s continued past its dependency request while %s had not finished", label(t.idx), label(d))
+				}
 			}
 			if o.Finished[d] {
 				// the dependency's own error, possibly wrapped
@@ -251,10 +301,13 @@ func Execute(c *Case, watchdog time.Duration) *Obs {
 		err := runner.Run(o, label(c.Root))
 		o.mu.Lock()
 		o.RunErr, o.RunDone = err, true
-		o.ActiveAtRunReturn = o.Active
+		o.evt("runReturn", 0)
 		o.mu.Unlock()
 	})
 	o.Res = s.Wait(watchdog)
+	o.mu.Lock()
+	o.account()
+	o.mu.Unlock()
 	return o
 }
 
